@@ -22,7 +22,7 @@ import (
 func init() { commands["envcases"] = cmdEnvCases }
 
 var tokText = map[string]string{"dollar": "$CANARYVAR", "bq": "`touch canary_bq`", "cmd": "$(touch canary_cmd)", "sq": "'", "dq": "\"",
-	"bs": "\\", "nl": "\n", "EOF": "EOF", "a": "a", "semi": ";"}
+	"bs": "\\", "nl": "\n", "tab": "\t", "EOF": "EOF", "a": "a", "semi": ";"}
 
 func toksToString(t []string) string {
 	var b strings.Builder
